@@ -176,6 +176,21 @@ SWAPS = [("CONCAT_WS('-', a, b)", "CONCAT('-', a, b)"), ("TRY_CAST(a AS INT)", "
 HIVE_SWAPS = [("SELECT k, v FROM t SORT BY k, v", "SELECT k, v FROM t ORDER BY k, v"), ("SELECT k FROM t CLUSTER BY k", "SELECT k FROM t DISTRIBUTE BY k")]
 
 
+SIMILAR_NUM = ["10", "100", "1000", "10000", "1000000", "11", "1111", "111111", "1212", "121212", "1000.0", "0.0001", "0.01"]
+SIMILAR_STR = ["'aa'", "'aaaa'", "'aaaaaaaa'", "'abab'", "'abababab'", "'xyxy'", "'xy'", "'2020-02-02'", "'2020-02-20 20:20:20'"]
+
+
+def similar_leaves(rng):
+    """a statement whose literal leaves share repeated character bigrams in different multiplicities (1000 / 1000000,
+    'abab' / 'abababab'): leaf matching must still pair every leaf of a tree with its own copy"""
+    num = lambda: rng.choice(SIMILAR_NUM)
+    st = lambda: rng.choice(SIMILAR_STR)
+    projs = [rng.choice([num(), st(), f"a + {num()}", f"COALESCE(s, {st()})", f"f({num()}, {num()})"]) for _ in range(rng.randint(2, 5))]
+    preds = [rng.choice([f"x > {num()}", f"y < {num()}", f"s = {st()}", f"s LIKE {st()}", f"x BETWEEN {num()} AND {num()}", f"x IN ({num()}, {num()}, {num()})"])
+             for _ in range(rng.randint(1, 4))]
+    return f"SELECT {', '.join(projs)} FROM t WHERE {(' AND ' if rng.random() < 0.7 else ' OR ').join(preds)}"
+
+
 def class_swap(rng):
     """pairs that differ in one node whose class is a sub / super / sibling class of the other's"""
     a, b = rng.choice(SWAPS)
@@ -192,7 +207,8 @@ def run_case(ctx, i):
 
     rng = ctx.case_rng(i)
     tables = sqlgen.gen_schema(rng)
-    kind = rng.choice(["edited", "edited", "edited", "independent", "copy", "self", "repetitive", "repetitive", "matchings", "class-swap", "class-swap"])
+    kind = rng.choice(["edited", "edited", "edited", "independent", "copy", "self", "repetitive", "repetitive", "matchings", "class-swap", "class-swap",
+                       "similar-leaves-copy", "similar-leaves-copy"])
     read = None
     try:
         if kind == "class-swap":
@@ -217,6 +233,8 @@ def run_case(ctx, i):
             a, b = stmts.gen_statement(rng, tables)[0], stmts.gen_statement(rng, tables)[0]
         elif kind == "repetitive":
             a, b = repetitive(rng)
+        elif kind == "similar-leaves-copy":
+            a = b = similar_leaves(rng)
         else:
             a = stmts.gen_statement(rng, tables)[0]
             b = a
@@ -231,7 +249,7 @@ def run_case(ctx, i):
     matchings = None
     if kind == "self":
         t = s
-    elif kind == "copy":
+    elif kind in ("copy", "similar-leaves-copy"):
         t = s.copy()
     elif kind == "matchings":
         matchings = [(s, t)] if type(s) is type(t) else None
